@@ -1246,7 +1246,8 @@ func (target *BuildTarget) HasLabel(label string) bool {
 			return true
 		}
 	}
-	return label == "test" && target.IsTest()
+	// Tests implicitly carry the label "test".
+	return target.IsTest() && match(label, "test")
 }
 
 // match returns true if the given label matches the given pattern.
